@@ -24,7 +24,7 @@ Proof. exact edge_dimension. Qed.
 Theorem C18_threshold_is_le : forall dim c, threshold dim c = (dim <=? c).
 Proof. exact threshold_le. Qed.
 
-(* inside the contract `dual` returns a matrix: no panic at any of the seven sites *)
+(* inside the contract `dual` returns a matrix: no panic at any of the eight sites (20-27) *)
 Theorem C18_dual_total : forall m, wf_mesh m = true -> exists g, dual m = Ok g.
 Proof. exact dual_total. Qed.
 Print Assumptions C18_dual_total.
